@@ -332,12 +332,44 @@ def _gen_range(rng, n):
     return cases
 
 
-def _impl_range(data):
-    r = _impl_incoming([0] + data)
+def _impl_incoming_stream(payloads):
+    """Feed a stream of LOCALIZATION payloads to ONE Localization instance; the delivered packets are kept and
+    only inspected after the whole stream (a consumer that queues packets must still see what was decoded)."""
+    from cflib.crazyflie.localization import Localization
+    cf = _FakeCf()
+    loc = Localization(cf)
+    got = []
+    loc.receivedLocationPacket.add_callback(lambda p: got.append(p))
+    res = []
+    for payload in payloads:
+        n0 = len(got)
+        try:
+            loc._incoming(_Pk(payload))
+        except Exception as e:
+            res.append(('raise', type(e).__name__))
+            continue
+        res.append(('ok', len(got) - 1) if len(got) > n0 else ('dropped',))
+    return [(r[0], got[r[1]]) if r[0] == 'ok' else r for r in res]
+
+
+def _canon_range(r):
     if r[0] != 'ok':
         return [-1] if r[0] == 'dropped' else [-2]
     d = r[1].data
     return sorted([k, _f32bits(v)] for k, v in d.items())
+
+
+def _impl_range(data):
+    return _canon_range(_impl_incoming([0] + data))
+
+
+def _impl_range_stream(datas, batch=6):
+    """like _impl_range for every element, but in batches sharing one Localization object"""
+    out = []
+    for i in range(0, len(datas), batch):
+        rs = _impl_incoming_stream([[0] + d for d in datas[i:i + batch]])
+        out += [_canon_range(r) for r in rs]
+    return out
 
 
 def _model_range_to_dict(flat):
@@ -368,14 +400,25 @@ def _dbl(x):
     return 'nan' if _m.isnan(x) else x.hex()
 
 
-def _impl_lh(data):
-    r = _impl_incoming([10] + data)
+def _canon_lh(r):
     if r[0] == 'raise':
         return [-1]
     if r[0] != 'ok':
         return [-3]
     d = r[1].data
     return [d['basestation']] + [_dbl(float(v)) for v in d['x']] + [_dbl(float(v)) for v in d['y']]
+
+
+def _impl_lh(data):
+    return _canon_lh(_impl_incoming([10] + data))
+
+
+def _impl_lh_stream(datas, batch=6):
+    out = []
+    for i in range(0, len(datas), batch):
+        rs = _impl_incoming_stream([[10] + d for d in datas[i:i + batch]])
+        out += [_canon_lh(r) for r in rs]
+    return out
 
 
 def _model_lh_to_values(flat):
@@ -484,8 +527,9 @@ def tie_streams(ctx):
     # range
     rc = _gen_range(rng, n)
     mv = coqrun.eval_terms(HEADER2, ['enc_range %s' % coqrun.zlist(d) for d in rc], tag='c13r', shard=500)
-    for d, m in zip(rc, mv):
-        a, b = _impl_range(d), _model_range_to_dict(m)
+    impl_r = _impl_range_stream(rc)
+    for d, m, a in zip(rc, mv, impl_r):
+        b = _model_range_to_dict(m)
         key = ('r', tuple(d))
         if key not in seen:
             seen.add(key)
@@ -495,8 +539,9 @@ def tie_streams(ctx):
     # lh angle
     lc = _gen_lh(rng, n)
     mv = coqrun.eval_terms(HEADER2, ['enc_lh %s' % coqrun.zlist(d) for d in lc], tag='c13l', shard=500)
-    for d, m in zip(lc, mv):
-        a, b = _impl_lh(d), _model_lh_to_values(m)
+    impl_l = _impl_lh_stream(lc)
+    for d, m, a in zip(lc, mv, impl_l):
+        b = _model_lh_to_values(m)
         key = ('l', tuple(d))
         if key not in seen:
             seen.add(key)
@@ -600,13 +645,15 @@ def oracle_streams(ctx, deep=False):
     fails = []
     rng = _random.Random(ctx.seed * 104729 + 7)
     n = ctx.scale(600, 6000) * (3 if deep else 1)
-    for d in _gen_lh(rng, n):
-        a, r = _impl_lh(d), _ref_lh(d)
+    lhs = _gen_lh(rng, n)
+    for d, a in zip(lhs, _impl_lh_stream(lhs)):
+        r = _ref_lh(d)
         if a != r:
             cls = 'lh_angle_wrong_length_not_rejected' if len(d) != 21 else 'lh_angle_decode_wrong'
             fails.append({'class': cls, 'case': {'fn': 'lh_angle', 'data': d}, 'expected': r, 'observed': a})
-    for d in _gen_range(rng, n):
-        a = _impl_range(d)
+    rgs = _gen_range(rng, n)
+    rg_stream = _impl_range_stream(rgs)
+    for k, (d, a) in enumerate(zip(rgs, rg_stream)):
         if len(d) % 5:
             exp = [-1]
         else:
@@ -615,7 +662,14 @@ def oracle_streams(ctx, deep=False):
                 dd[d[i]] = _cn(struct.unpack('<I', bytes(d[i + 1:i + 5]))[0])
             exp = sorted([k, v] for k, v in dd.items())
         if a != exp:
-            fails.append({'class': 'range_decode_wrong', 'case': {'fn': 'range', 'data': d}, 'expected': exp, 'observed': a})
+            alone = _impl_range(d)
+            if alone == exp:
+                fails.append({'class': 'range_report_changed_after_delivery',
+                              'case': {'fn': 'range_stream', 'stream': rgs[(k // 6) * 6:(k // 6) * 6 + 6], 'index': k % 6},
+                              'expected': exp, 'observed': a,
+                              'detail': 'a delivered range report no longer holds what was decoded once later reports arrived'})
+            else:
+                fails.append({'class': 'range_decode_wrong', 'case': {'fn': 'range', 'data': d}, 'expected': exp, 'observed': a})
     for c in _gen_start(rng, n):
         f = _check_start(c)
         if f:
@@ -647,7 +701,23 @@ def _replay_segment(c):
     return _check_segment((_unhex(a[0]),) + tuple([_unhex(x) for x in e] for e in a[1:]))
 
 
-_REPLAYERS = {'lh_angle': _replay_lh, 'traj_start': _replay_start, 'traj_segment': _replay_segment}
+def _replay_range_stream(c):
+    got = _impl_range_stream(c['stream'], batch=len(c['stream']))
+    for d, a in zip(c['stream'], got):
+        if len(d) % 5:
+            exp = [-1]
+        else:
+            dd = {}
+            for i in range(0, len(d), 5):
+                dd[d[i]] = _cn(struct.unpack('<I', bytes(d[i + 1:i + 5]))[0])
+            exp = sorted([k, v] for k, v in dd.items())
+        if a != exp:
+            return {'expected': exp, 'observed': a}
+    return None
+
+
+_REPLAYERS = {'lh_angle': _replay_lh, 'traj_start': _replay_start, 'traj_segment': _replay_segment,
+              'range_stream': _replay_range_stream}
 
 
 def _merge(a, b):
